@@ -237,7 +237,9 @@ def cases(draw):
     else:
         k = draw(st.sampled_from([1, 1, 2, 2, 3]))
         units = draw(st.lists(st.sampled_from(UNITS), min_size=k, max_size=k, unique=True))
-        units.sort(key=UNITS.index, reverse=True)
+        # largest-first is the usual way to write it, but every order must add up ("2 years 1 decade ago")
+        if draw(st.integers(0, 2)):
+            units.sort(key=UNITS.index, reverse=True)
         for u in units:
             n = draw(counts)
             if u == "decade":
